@@ -672,9 +672,10 @@ def bounded_sum_unfoldings(formulas, upto):
     for f in formulas:
         walk(f)
     out, done = [], set()
+    hv_memo = {}
     for e in apps:
         a = e.children()[:-1]
-        if any(_has_var(x) for x in a):
+        if any(_has_var(x, hv_memo) for x in a):
             continue
         key = (e.decl().name(),) + tuple(x.get_id() for x in a)
         if key in done:
@@ -687,12 +688,28 @@ def bounded_sum_unfoldings(formulas, upto):
     return out
 
 
-def _has_var(e):
-    if z3.is_var(e):
-        return True
-    if z3.is_quantifier(e):
-        return True
-    return any(_has_var(c) for c in e.children()) if z3.is_app(e) else False
+def _has_var(e, _memo=None):
+    """does the term contain a bound variable (inside a quantifier / lambda)?  Memoised on the DAG: the terms are heavily shared"""
+    memo = {} if _memo is None else _memo
+    stack = [e]
+    order = []
+    while stack:
+        t = stack.pop()
+        i = t.get_id()
+        if i in memo:
+            continue
+        if z3.is_var(t) or z3.is_quantifier(t):
+            memo[i] = True
+            continue
+        if not z3.is_app(t):
+            memo[i] = False
+            continue
+        memo[i] = None
+        order.append(t)
+        stack.extend(t.children())
+    for t in reversed(order):
+        memo[t.get_id()] = any(memo.get(c.get_id()) for c in t.children())
+    return bool(memo.get(e.get_id()))
 
 
 def algo_call(ex, n, st, name, argn):
